@@ -473,11 +473,72 @@ def t4(rep, rules):
                 rep.violation("T4", r.key(), "a table WITHOUT privacy unit is given a PUP rule", r.where())
 
 
+def t6(rep, src):
+    rep.rule(
+        "T6",
+        "SyntheticData::table: the path of the produced (synthetic) table comes only from the declared synthetic-paths lookup and a missing entry is an error; "
+        "the protected table's own path is used only as the lookup key (or in the error value), never as a fallback",
+        floor=1,
+        necessary="with a fallback to table.path() the 'synthetic' table IS the protected table: every SD-labelled derivation releases raw protected rows with a no-op privacy event",
+    )
+    f = src.one_fn(name="table", file="synthetic_data/mod.rs", self_ty="SyntheticData")
+    tparam = [p["pat"]["name"] for p in f.params if not p.get("self") and "Table" in p["ty"] and p["pat"]["k"] == "ident"]
+    paths = [m for m in find(f.body, "mcall") if m["m"] == "path" and m["args"]]
+    # the builder's .path(..) call: receiver chain rooted at Relation::table()
+    paths = [m for m in paths if "Relation::table" in show(m["recv"], 0)]
+    if len(paths) != 1 or not tparam:
+        rep.undecidable("T6", "SyntheticData::table@path", "cannot find the `.path(..)` of the synthetic table builder", f.where())
+        return
+    arg = paths[0]["args"][0]
+    tp = tparam[0]
+    bad = []
+    lookups = 0
+
+    def visit(n, ctx):
+        nonlocal lookups
+        if not isinstance(n, dict) or "k" not in n:
+            return
+        if n["k"] == "path" and n["segs"] == [tp] and ctx not in ("key", "error"):
+            bad.append("`%s` used outside the lookup key" % tp)
+        c = ctx
+        if n["k"] == "mcall":
+            if n["m"] in ("get", "get_key_value", "contains_key") and "synthetic_paths" in show(n["recv"], 0):
+                lookups += 1
+                visit(n["recv"], ctx)
+                for a in n["args"]:
+                    visit(a, "key")
+                return
+            if n["m"] in ("ok_or", "ok_or_else", "expect"):
+                visit(n["recv"], ctx)
+                for a in n["args"]:
+                    visit(a, "error")
+                return
+            if n["m"] in ("unwrap_or", "unwrap_or_else", "unwrap_or_default", "or", "or_else", "map_or", "map_or_else"):
+                bad.append("fallback `.%s(..)` on the synthetic-path lookup" % n["m"])
+        if n["k"] == "index" and "synthetic_paths" in show(n["e"], 0):
+            lookups += 1
+            visit(n["i"], "key")
+            return
+        from .core import children
+
+        for ch in children(n):
+            visit(ch, c)
+
+    visit(arg, "top")
+    # names bound earlier from the table's path would hide the flow: resolve one level of lets
+    rep.instance("T6", "SyntheticData::table@path", {"path_argument": show(arg, 200), "lookups": lookups, "problems": bad})
+    if lookups == 0:
+        bad.append("the path does not come from a synthetic_paths lookup")
+    for b in bad:
+        rep.violation("T6", "SyntheticData::table@path", b + ": " + show(arg, 160), "src/synthetic_data/mod.rs:%d" % paths[0]["l"])
+
+
 def run(rep):
     rep.explanation = (
         "Static table proof over rewriting/rewriting_rule.rs and rewriting/mod.rs (syn AST of the current tree). "
         "Decides: every RewritingRule row respects the label lattice (T1), every row is dispatched by the Rewriter to the mechanism it names (T2), "
-        "the two public entry points accept only safe root labels (T3), protected tables never get the Public rule (T4). "
+        "the two public entry points accept only safe root labels (T3), protected tables never get the Public rule (T4), the rule setter and the privacy-unit tracker agree on which tables are protected (T5), "
+        "the synthetic replacement of a table never falls back to the table itself (T6). "
         "Does NOT decide that the DP aggregation itself is private (C01/C03/C04) nor column-level lineage inside the produced relation."
     )
     src = Src(facts.src_facts())
@@ -486,6 +547,10 @@ def run(rep):
     t2(rep, src, rules)
     t3(rep, src)
     t4(rep, rules)
+    from .c05 import t5
+
+    t5(rep, src)
+    t6(rep, src)
     rep.extra["rule_table"] = [r.text() for r in rules]
     rep.assume("rustc accepts the tree (the syn facts are parsed from the same files the build uses)")
     rep.assume("RewritingRule values are only created by RewritingRulesSetter (checked: RewritingRule::new call sites outside tests)")
